@@ -249,23 +249,63 @@ theorem collect_eq {ν : Type} (cov : String → Bool) :
       rw [hp, hc]
       simp [keys, put]
 
+theorem insertSorted_perm (a : String) (l : List String) : (insertSorted a l).Perm (a :: l) := by
+  induction l with
+  | nil => exact List.Perm.refl _
+  | cons b l ih =>
+    simp only [insertSorted]
+    split
+    · exact List.Perm.refl _
+    · exact (List.Perm.cons b ih).trans (List.Perm.swap a b l)
+
+theorem insertSorted_sorted (a : String) (l : List String) (h : l.Pairwise (· ≤ ·)) :
+    (insertSorted a l).Pairwise (· ≤ ·) := by
+  induction l with
+  | nil => simp [insertSorted]
+  | cons b l ih =>
+    simp only [insertSorted]
+    rw [List.pairwise_cons] at h
+    split
+    · rename_i hab
+      rw [List.pairwise_cons]
+      refine ⟨?_, List.pairwise_cons.mpr h⟩
+      intro x hx
+      rcases List.mem_cons.mp hx with rfl | hx
+      · exact hab
+      · exact String.le_trans hab (h.1 x hx)
+    · rename_i hab
+      have hba : b ≤ a := by
+        rcases String.le_total a b with h' | h'
+        · exact absurd h' hab
+        · exact h'
+      rw [List.pairwise_cons]
+      refine ⟨?_, ih h.2⟩
+      intro x hx
+      rcases List.mem_cons.mp ((insertSorted_perm a l).mem_iff.mp hx) with rfl | hx
+      · exact hba
+      · exact h.1 x hx
+
+theorem sortStrings_perm' (l : List String) : (sortStrings l).Perm l := by
+  induction l with
+  | nil => exact List.Perm.refl _
+  | cons a l ih =>
+    simp only [sortStrings, List.foldr_cons] at *
+    exact (insertSorted_perm a _).trans (List.Perm.cons a ih)
+
+theorem sortStrings_sorted (l : List String) : (sortStrings l).Pairwise (· ≤ ·) := by
+  induction l with
+  | nil => simp [sortStrings]
+  | cons a l ih =>
+    simp only [sortStrings, List.foldr_cons] at *
+    exact insertSorted_sorted a _ ih
+
 theorem sortStrings_perm {l₁ l₂ : List String} (hp : l₁.Perm l₂) : sortStrings l₁ = sortStrings l₂ := by
-  simp only [sortStrings]
-  have ht : ∀ (a b c : String), decide (a ≤ b) = true → decide (b ≤ c) = true → decide (a ≤ c) = true := by
-    intro a b c h1 h2
-    simp only [decide_eq_true_eq] at *
-    exact String.le_trans h1 h2
-  have htot : ∀ (a b : String), (decide (a ≤ b) || decide (b ≤ a)) = true := by
-    intro a b
-    simp only [Bool.or_eq_true, decide_eq_true_eq]
-    exact String.le_total a b
-  apply List.Perm.eq_of_pairwise (le := fun a b => decide (a ≤ b) = true)
+  apply List.Perm.eq_of_pairwise (le := (· ≤ ·))
   · intro a b _ _ h1 h2
-    simp only [decide_eq_true_eq] at h1 h2
     exact String.le_antisymm h1 h2
-  · exact List.pairwise_mergeSort ht htot l₁
-  · exact List.pairwise_mergeSort ht htot l₂
-  · exact (List.mergeSort_perm l₁ _).trans (hp.trans (List.mergeSort_perm l₂ _).symm)
+  · exact sortStrings_sorted l₁
+  · exact sortStrings_sorted l₂
+  · exact (sortStrings_perm' l₁).trans (hp.trans (sortStrings_perm' l₂).symm)
 
 /-- two executions of nilCheckWrite are *equivalent* when they hold the same paths up to order and the same
     path ↦ type binding -/
@@ -325,12 +365,11 @@ theorem collect_equiv {ν : Type} (cov : String → Bool) {ord₁ ord₂ : Entri
     rw [get_perm hrp hrn]
 
 /-- several passes; `ps` lists, per pass, the cover test and the two iteration orders of the two executions -/
-theorem passes_equiv {ν : Type} :
-    ∀ (ps : List ((String → Bool) × Entries String ν × Entries String ν)),
-      (∀ p ∈ ps, p.2.1.Perm p.2.2 ∧ (keys p.2.1).Nodup) →
+theorem passes_equiv {ν π : Type} (cov : π → String → Bool) (o₁ o₂ : π → Entries String ν) :
+    ∀ (ps : List π), (∀ p ∈ ps, (o₁ p).Perm (o₂ p) ∧ (keys (o₁ p)).Nodup) →
       ∀ (c d : Coll ν), CollEquiv c d →
-        CollEquiv ((ps.map (fun p => (p.1, p.2.1))).foldl (fun c p => collect p.1 p.2 c) c)
-                  ((ps.map (fun p => (p.1, p.2.2))).foldl (fun c p => collect p.1 p.2 c) d) := by
+        CollEquiv ((ps.map (fun p => (cov p, o₁ p))).foldl (fun c p => collect p.1 p.2 c) c)
+                  ((ps.map (fun p => (cov p, o₂ p))).foldl (fun c p => collect p.1 p.2 c) d) := by
   intro ps
   induction ps with
   | nil => intro _ c d hcd; exact hcd
@@ -340,5 +379,25 @@ theorem passes_equiv {ν : Type} :
     apply ih (fun q hq => h q (List.mem_cons_of_mem _ hq))
     have hp := h p (List.mem_cons_self ..)
     exact collect_equiv _ hp.1 hp.2 hcd
+
+/-! ### headers × DefaultHeaders -/
+
+theorem foldl_eachTable {τ : Type} (hs : Entries κ ν) :
+    ∀ (T : Entries τ (Entries κ ν)), hs.foldl (fun tabs e => eachTable tabs e.1 e.2) T = T.map (fun t => (t.1, putAll hs t.2)) := by
+  induction hs with
+  | nil => intro T; simp [putAll]
+  | cons e hs ih =>
+    intro T
+    simp only [List.foldl_cons, ih, eachTable, List.map_map, putAll, Function.comp_def]
+
+theorem get_map_putAll {τ : Type} [DecidableEq τ] (hs : Entries κ ν) (T : Entries τ (Entries κ ν)) (verb : τ) :
+    get (T.map (fun t => (t.1, putAll hs t.2))) verb = (get T verb).map (putAll hs) := by
+  induction T with
+  | nil => simp [get]
+  | cons t T ih =>
+    simp only [get, List.map_cons, List.find?_cons] at *
+    by_cases ht : t.1 = verb
+    · simp [ht]
+    · simp only [ht, decide_false]; exact ih
 
 end ShootVerif.DetOrder
